@@ -4,6 +4,7 @@ def ob(id, h, desc, engine='F', units=(), complete=True, bound=None, twin=None, 
 
 CMP = 'verif_frag::cmp::'
 LOGIC = 'verif_frag::logic::'
-GATES = 'verif_frag::gates::'
+GD = 'verif_frag::gate_depth::'
+GW = 'verif_frag::gate_window::'
 BETW = 'verif_frag::between::'
 OPS = 'operators::verif_kani::'
